@@ -43,6 +43,8 @@ enum TOp {
     Wait(usize),
     DropHandle,
     DropBarrier(usize),
+    /// the harness aborts source task 0 (its future is dropped wherever it is parked)
+    AbortSource0,
 }
 
 #[derive(Clone, Debug, PartialEq, Eq, Hash)]
@@ -56,11 +58,12 @@ enum Ev {
     Pre(usize, usize, u8, bool), // source, index, value, sync (trigger_noop)
     Post(usize, usize),
     Panicked(usize),
+    Aborted(usize),
 }
 
 type Log = Rc<RefCell<Vec<Ev>>>;
 
-async fn test_task(pre: Vec<(R, Cond)>, script: Vec<TOp>, log: Log) {
+async fn test_task(pre: Vec<(R, Cond)>, script: Vec<TOp>, log: Log, abort: Rc<std::cell::Cell<bool>>) {
     let mut barriers: Vec<Option<Barrier<u8>>> = vec![];
     let mut handles: VecDeque<Triggered<u8>> = VecDeque::new();
     // barriers that exist before anything else runs
@@ -115,6 +118,7 @@ async fn test_task(pre: Vec<(R, Cond)>, script: Vec<TOp>, log: Log) {
                     barriers[idx] = None;
                 }
             }
+            TOp::AbortSource0 => abort.set(true),
         }
     }
     // keep everything it still holds until the harness lets go of this task
@@ -148,6 +152,7 @@ pub fn scenario(ch: &mut Chooser, thorough: bool, part: u8) -> Exec {
         TOp::DropHandle,
         TOp::DropBarrier(0),
         TOp::DropBarrier(1),
+        TOp::AbortSource0,
     ];
     let kinds = [(R::Noop, Cond::Eq1), (R::Suspend, Cond::Any), (R::Suspend, Cond::Eq1), (R::Panic, Cond::Eq2)];
     let n_pre = if part == 0 { ch.choose("barriers_built_up_front", 2) } else { 2 + ch.choose("barriers_built_up_front", 2) };
@@ -168,7 +173,9 @@ pub fn scenario(ch: &mut Chooser, thorough: bool, part: u8) -> Exec {
     }
     let log: Log = Rc::new(RefCell::new(vec![]));
     let mut ex = Executor::new();
-    let t_id = ex.spawn(99, test_task(pre.clone(), script.clone(), log.clone()));
+    let abort = Rc::new(std::cell::Cell::new(false));
+    let mut aborted0 = false;
+    let t_id = ex.spawn(99, test_task(pre.clone(), script.clone(), log.clone(), abort.clone()));
     let mut src_ids = vec![];
     for (s, p) in progs.iter().enumerate() {
         src_ids.push(ex.spawn(s as u32, source(s, p.clone(), log.clone())));
@@ -197,6 +204,14 @@ pub fn scenario(ch: &mut Chooser, thorough: bool, part: u8) -> Exec {
             } else {
                 violation = Some(Violation::new("test-task-panic", "the test task itself panicked".into()));
                 break;
+            }
+        }
+        if abort.get() && !aborted0 {
+            aborted0 = true;
+            if !ex.is_done(src_ids[0]) {
+                ex.cancel(src_ids[0]);
+                log.borrow_mut().push(Ev::Aborted(0));
+                feats.push("source-aborted");
             }
         }
         // "lets it proceed right after": a source released by this poll must be runnable now
@@ -300,6 +315,10 @@ fn check_released_runnable(events: &[Ev], ex: &Executor, src_ids: &[usize]) -> O
                 suspended.retain(|x| x != &(*s, *k));
                 released.retain(|x| x != &(*s, *k));
             }
+            Ev::Aborted(s) => {
+                suspended.retain(|x| x.0 != *s);
+                released.retain(|x| x.0 != *s);
+            }
             _ => {}
         }
     }
@@ -322,6 +341,7 @@ fn replay(events: &[Ev], progs: &[Vec<(u8, bool)>], feats: &mut Vec<&'static str
     let mut expect_adjacent: Option<Ev> = None;
     let mut posts: Vec<(usize, usize)> = vec![];
     let mut panicked: Vec<usize> = vec![];
+    let mut waiting: Option<usize> = None;
     for (n, e) in events.iter().enumerate() {
         if let Some(want) = expect_adjacent.take() {
             if *e != want {
@@ -334,7 +354,19 @@ fn replay(events: &[Ev], progs: &[Vec<(u8, bool)>], feats: &mut Vec<&'static str
         match e {
             Ev::Build(i, r, c) => live.push(MBar { idx: *i, r: *r, c: *c, queue: VecDeque::new() }),
             Ev::DropBarrier(i) if *i == usize::MAX => {
-                // the test task is gone: every barrier and handle it held has been dropped
+                // the test task is gone: every barrier and handle it held has been dropped.
+                // If it was still parked in wait() on a barrier whose queue (in trigger order)
+                // is not empty, a report went missing
+                if let Some(w) = waiting {
+                    if let Some(b) = live.iter().find(|b| b.idx == w) {
+                        if let Some(front) = b.queue.front() {
+                            return Some(Violation::new(
+                                "report",
+                                format!("Barrier::wait on barrier {w} never returned although trigger {:?} matched it and is still unreported (every matching trigger is reported exactly once, also when its source has gone away since)", front),
+                            ));
+                        }
+                    }
+                }
                 all_released = true;
                 blocked.clear();
                 live.clear();
@@ -402,7 +434,19 @@ fn replay(events: &[Ev], progs: &[Vec<(u8, bool)>], feats: &mut Vec<&'static str
                 posts.push((*s, *k));
             }
             Ev::Panicked(s) => panicked.push(*s),
-            Ev::WaitStart(_) => {}
+            Ev::Aborted(s) => {
+                // the source's future is gone: it will never get past its trigger, and what it
+                // had triggered stays reported / reportable
+                blocked.retain(|x| x.0 != *s);
+                panicked.push(*s);
+                if expect_adjacent.as_ref().map(|w| matches!(w, Ev::Post(x, _) | Ev::Panicked(x) if x == s)).unwrap_or(false) {
+                    expect_adjacent = None;
+                }
+            }
+            Ev::WaitStart(i) => waiting = Some(*i),
+        }
+        if matches!(e, Ev::WaitRet(..) | Ev::WaitNone(_)) {
+            waiting = None;
         }
     }
     if let Some(want) = expect_adjacent {
@@ -462,6 +506,8 @@ pub fn fs_hook_scenario(ch: &mut Chooser, thorough: bool) -> Exec {
     let drop_first_before = if setup.is_empty() { 9 } else { *ch.of("first_barrier_dropped_before_read", &[9usize, 0, 1, 2, 3]) };
     let late_barrier_before = *ch.of("extra_any_barrier_created_before_read", &[9usize, 1, 2]);
     let nreads = if thorough { 4 } else { 3 };
+    // two reads issued by the host within one step (several hook firings in one tick)
+    let pairs = ch.flag("two_reads_in_one_step");
     // reads: (file, offset, len)
     let mut reads: Vec<(usize, u64, usize)> = vec![];
     for _ in 0..nreads {
@@ -475,7 +521,7 @@ pub fn fs_hook_scenario(ch: &mut Chooser, thorough: bool) -> Exec {
     b.fs().corruption_probability(if prob_one { 1.0 } else { 0.0 });
     let mut sim = b.build();
     // shared script state: which read to perform in this step, and the result
-    let cur: Rc<RefCell<Option<(usize, u64, usize)>>> = Rc::new(RefCell::new(None));
+    let cur: Rc<RefCell<Vec<(usize, u64, usize)>>> = Rc::new(RefCell::new(vec![]));
     let res: Rc<RefCell<Vec<(usize, u64, Vec<u8>)>>> = Rc::new(RefCell::new(vec![]));
     let (cur2, res2) = (cur.clone(), res.clone());
     sim.host("h", move || {
@@ -485,8 +531,8 @@ pub fn fs_hook_scenario(ch: &mut Chooser, thorough: bool) -> Exec {
             fs::write("/a", (0..8u8).map(|i| i * 3 + 1).collect::<Vec<u8>>())?;
             fs::write("/b", (0..8u8).map(|i| i * 3 + 101).collect::<Vec<u8>>())?;
             loop {
-                let c = cur2.borrow_mut().take();
-                if let Some((f, off, len)) = c {
+                let todo: Vec<(usize, u64, usize)> = cur2.borrow_mut().drain(..).collect();
+                for (f, off, len) in todo {
                     let file = fs::File::open(if f == 0 { "/a" } else { "/b" })?;
                     let mut buf = vec![0u8; len];
                     let n = file.read_at(&mut buf, off)?;
@@ -512,30 +558,35 @@ pub fn fs_hook_scenario(ch: &mut Chooser, thorough: bool) -> Exec {
     let mut violation: Option<Violation> = None;
     let mut obs: Vec<String> = vec![];
     let _ = sim.step(); // files are written
-    for (i, &(f, off, len)) in reads.iter().enumerate() {
-        if i == drop_first_before && !live.is_empty() {
+    let mut i = 0usize;
+    while i < reads.len() {
+        let group: Vec<(usize, u64, usize)> = if pairs && i + 1 < reads.len() { vec![reads[i], reads[i + 1]] } else { vec![reads[i]] };
+        if (i == drop_first_before || (group.len() == 2 && i + 1 == drop_first_before)) && !live.is_empty() {
             let (_, mut bar, mut logv) = live.remove(0);
             logv.extend(poll_barrier(&mut bar));
             finished.push((ids.remove(0), logv));
             drop(bar);
             obs.push(format!("before read {i}: first barrier dropped"));
         }
-        if i == late_barrier_before {
+        if i == late_barrier_before || (group.len() == 2 && i + 1 == late_barrier_before) {
             live.push((0, mk(0), vec![]));
             expected.push(vec![]);
             ids.push(expected.len() - 1);
             obs.push(format!("before read {i}: extra match-all barrier created"));
         }
-        *cur.borrow_mut() = Some((f, off, len));
+        let before = res.borrow().len();
+        *cur.borrow_mut() = group.clone();
         if let Err(e) = vx_core::catch(|| sim.step()).unwrap_or_else(|p| Err(p.into())) {
             violation = Some(Violation::new("sim-error", e.to_string()));
             break;
         }
-        let got = res.borrow().last().cloned();
-        let Some((_, _, data)) = got else {
+        if res.borrow().len() != before + group.len() {
             violation = Some(Violation::new("harness", "read did not happen".into()));
             break;
-        };
+        }
+        for (gi, &(f, off, len)) in group.iter().enumerate() {
+        let data = res.borrow()[before + gi].2.clone();
+        let i = i + gi;
         let want: Vec<u8> = content(f)[off as usize..(off as usize + len).min(8)].to_vec();
         obs.push(format!("read {i}: file {} off {off} len {len} -> {data:?} (written {want:?})", if f == 0 { "/a" } else { "/b" }));
         let diffs: Vec<usize> = (0..data.len().min(want.len())).filter(|&k| data[k] != want[k]).collect();
@@ -555,9 +606,14 @@ pub fn fs_hook_scenario(ch: &mut Chooser, thorough: bool) -> Exec {
                 expected[ids[t]].push((path.to_string(), off + k as u64, 1));
             }
         }
+        }
+        if violation.is_some() {
+            break;
+        }
         for (_, bar, logv) in live.iter_mut() {
             logv.extend(poll_barrier(bar));
         }
+        i += group.len();
     }
     if violation.is_none() {
         for (j, (_, _, logv)) in live.iter().enumerate() {
